@@ -353,7 +353,6 @@ def _b(o):
 
 class SNum:
   """Symbolic number (z3 Int or Real term)."""
-  __slots__ = ('e',)
 
   def __init__(self, e):
     self.e = e
@@ -410,8 +409,8 @@ class SNum:
     return NotImplemented
 
   def _cmp(self, o, f):
-    if isinstance(o, float) and (o != o or o in (float('inf'),
-                                                   float('-inf'))):
+    if not isinstance(o, SNum) and isinstance(o, float) and (
+        o != o or o in (float('inf'), float('-inf'))):
       # symbolic values are finite reals: fold the IEEE comparison.
       z0, z1 = z3.RealVal(0), z3.RealVal(1)
       lt = z3.is_true(z3.simplify(f(z0, z1)))
@@ -583,3 +582,25 @@ class FunctionTrace:
       mon.free_tool_id(self.tool)
       self._on = False
     return sorted(self.seen)
+
+
+# ---------------------------------------------------------------------------
+# symbolic numbers that pass isinstance(v, int) / isinstance(v, float)
+# ---------------------------------------------------------------------------
+# isinstance() consults obj.__class__, so a __class__ property is enough; real
+# subclassing of int/float would let C-level comparisons (float.__le__(0.0,
+# int_subclass)) silently use the dummy base value instead of the z3 term.
+class SFloat(SNum):
+  """A symbolic finite real that code under test sees as a `float`."""
+
+  @property
+  def __class__(self):
+    return float
+
+
+class SInt(SNum):
+  """A symbolic integer that code under test sees as an `int`."""
+
+  @property
+  def __class__(self):
+    return int
